@@ -1,6 +1,9 @@
 #!/bin/bash
-# Build every engine once (offline) so later checks only pay for incremental builds.
+# Build every registered engine once (offline) so later checks only pay for incremental builds.
 set -u
 ROOT="$(cd "$(dirname "$0")" && pwd)"
 mkdir -p "$ROOT/bin" "$ROOT/evidence" "$ROOT/replays"
-exec "$ROOT/run" build
+ids=$(jq -r '.checks[].property_id' "$ROOT/MANIFEST.json")
+[ -n "$ids" ] || exit 0
+# shellcheck disable=SC2086
+exec "$ROOT/run" build $ids
